@@ -101,7 +101,10 @@ Definition echoes (f r : bytes) : bool :=
       match rd f (bp_dh pf + 1) 2, rd r (bp_dh pr + 1) 2, rd f (bp_dh pf + 4) 4, rd r (bp_dh pr + 4) 4,
             rd f (bp_dh pf + 28) 16, rd r (bp_dh pr + 28) 16 with
       | Some h, Some h', Some x, Some x', Some c, Some c' =>
-          bytes_eqb h h' && bytes_eqb x x' && bytes_eqb c c'
+          (* htype and hlen as received; the hardware address = the first hlen (at most 16) chaddr bytes,
+             what lies behind it is padding the property does not speak about *)
+          let n := Nat.min (N.to_nat (nth 1%nat h 0)) 16%nat in
+          bytes_eqb h h' && bytes_eqb x x' && bytes_eqb (firstn n c) (firstn n c')
           && (let tq := tlv_msg_type (opts_of f pf) in
               let tr := tlv_msg_type (opts_of r pr) in
               ((tq =? 1) && (tr =? 2)) || ((tq =? 3) && (tr =? 5)))
